@@ -3,6 +3,8 @@
    on every run (pyvc/leanvc.py) and spliced in before the section of their function. -/
 import Mathlib.Tactic.Ring
 import Mathlib.Tactic.Linarith
+import Mathlib.Data.Nat.Choose.Basic
+import Mathlib.Algebra.BigOperators.Intervals
 set_option linter.unusedVariables false
 set_option linter.unusedSimpArgs false
 
@@ -138,3 +140,127 @@ theorem part_injective (i j : Nat) (sizes : List Nat) (m : Nat) (hm : sizes.leng
   have := congrArg (encode_part sizes) h
   rwa [part_left_inverse i sizes m hm hi, part_left_inverse j sizes m hm hj] at this
 -- END _index_to_edge_partition
+
+-- BEGIN _index_to_edge_comb
+open Finset
+
+/-- the number of k-subsets of {lo, …, n-1} whose least element is < v -/
+def below (n k lo v : Nat) : Nat := ∑ u ∈ Ico lo v, Nat.choose (n - 1 - u) (k - 1)
+
+/-- inner loop: started with r in [1, C(n - lo, k)] (k = m - s + 1 elements still to choose from {lo..n-1}) it stops at the
+    value cs whose block of C(n-1-cs, k-1) completions contains r, and leaves the rank inside that block -/
+theorem inner_spec (n m s : Nat) (hs : s ≤ m) :
+    ∀ (fuel r lo : Nat), n - lo ≤ fuel → 1 ≤ r → r ≤ Nat.choose (n - lo) (m - s + 1) →
+      let res := comb_inner n m s fuel r lo
+      lo ≤ res.2 ∧ res.2 + (m - s) < n ∧ 1 ≤ res.1 ∧ res.1 ≤ Nat.choose (n - 1 - res.2) (m - s) ∧
+        r = below n (m - s + 1) lo res.2 + res.1 := by
+  intro fuel
+  induction fuel with
+  | zero =>
+    intro r lo hf h1 h2
+    have : n - lo = 0 := by omega
+    rw [this] at h2
+    simp at h2
+    omega
+  | succ f ih =>
+    intro r lo hf h1 h2
+    have hlo : lo < n := by
+      by_contra h
+      have : n - lo = 0 := by omega
+      rw [this] at h2
+      simp at h2
+      omega
+    have hpas : Nat.choose (n - lo) (m - s + 1) = Nat.choose (n - 1 - lo) (m - s) + Nat.choose (n - (lo + 1)) (m - s + 1) := by
+      have : n - lo = (n - 1 - lo) + 1 := by omega
+      rw [this, Nat.choose_succ_succ]
+      congr 2
+      omega
+    simp only [comb_inner]
+    split_ifs with hgt
+    · have := ih (r - Nat.choose (n - 1 - lo) (m - s)) (lo + 1) (by omega) (by omega) (by omega)
+      obtain ⟨a, b, c, d, e⟩ := this
+      refine ⟨by omega, b, c, d, ?_⟩
+      have hb : below n (m - s + 1) lo (comb_inner n m s f (r - Nat.choose (n - 1 - lo) (m - s)) (lo + 1)).2
+          = Nat.choose (n - 1 - lo) (m - s) + below n (m - s + 1) (lo + 1) (comb_inner n m s f (r - Nat.choose (n - 1 - lo) (m - s)) (lo + 1)).2 := by
+        unfold below
+        rw [Finset.sum_eq_sum_Ico_succ_bot (by omega)]
+        simp
+      omega
+    · refine ⟨le_refl _, ?_, h1, (by show r ≤ Nat.choose (n - 1 - lo) (m - s); omega), ?_⟩
+      · show lo + (m - s) < n
+        by_contra hc
+        have : Nat.choose (n - 1 - lo) (m - s) = 0 := by
+          apply Nat.choose_eq_zero_of_lt
+          omega
+        omega
+      · simp [below]
+
+/-- spec: number of k-subsets of {lo..n-1} that precede `ds` in lexicographic order -/
+def rank_from (n : Nat) : Nat → Nat → List Nat → Nat
+  | _, _, [] => 0
+  | lo, k, v :: vs => below n k lo v + rank_from n (v + 1) (k - 1) vs
+
+/-- strictly increasing, first element ≥ lo, all elements < n -/
+def IncFrom (n : Nat) : Nat → List Nat → Prop
+  | _, [] => True
+  | lo, v :: vs => lo ≤ v ∧ v < n ∧ IncFrom n (v + 1) vs
+
+theorem fold_spec (n m : Nat) : ∀ (k t lo r : Nat) (acc : List Nat), t + k = m → 1 ≤ r → r ≤ Nat.choose (n - lo) k →
+    ∃ ds j1, (List.range' (t + 1) k).foldl (comb_step n m) (acc, r, lo) = (acc ++ ds, 1, j1)
+      ∧ ds.length = k ∧ r = rank_from n lo k ds + 1 ∧ IncFrom n lo ds := by
+  intro k
+  induction k with
+  | zero =>
+    intro t lo r acc _ h1 h2
+    refine ⟨[], lo, ?_, rfl, ?_, trivial⟩
+    · simp at h2
+      have : r = 1 := by omega
+      subst this
+      simp
+    · simp at h2
+      simp [rank_from]
+      omega
+  | succ k ih =>
+    intro t lo r acc htk h1 h2
+    have hms : m - (t + 1) = k := by omega
+    have hsp := inner_spec n m (t + 1) (by omega) n r lo (by omega) h1 (by rw [hms]; exact h2)
+    rw [hms] at hsp
+    obtain ⟨a, b, c, d, e⟩ := hsp
+    set res := comb_inner n m (t + 1) n r lo with hres
+    have hle : res.1 ≤ Nat.choose (n - (res.2 + 1)) k := by
+      have : n - (res.2 + 1) = n - 1 - res.2 := by omega
+      rw [this]; exact d
+    obtain ⟨ds', j1, hf, hl, hr, hi⟩ := ih (t + 1) (res.2 + 1) res.1 (acc ++ [res.2]) (by omega) c hle
+    refine ⟨res.2 :: ds', j1, ?_, by simp [hl], ?_, ⟨a, by omega, hi⟩⟩
+    · rw [List.range'_succ, List.foldl_cons]
+      have : comb_step n m (acc, r, lo) (t + 1) = (acc ++ [res.2], res.1, res.2 + 1) := by
+        simp [comb_step, hres]
+      rw [this, hf]
+      simp
+    · simp only [rank_from]
+      have : k + 1 - 1 = k := by omega
+      rw [this]
+      omega
+
+/-- for every index < C(n, m): the decoded edge has m entries, strictly increasing, all in [0, n), and its lexicographic rank
+    among the m-subsets of {0..n-1} is the index -/
+theorem decode_comb_spec (index n m : Nat) (h : index < Nat.choose n m) :
+    (decode_comb index n m).length = m ∧ IncFrom n 0 (decode_comb index n m)
+      ∧ rank_from n 0 m (decode_comb index n m) = index := by
+  obtain ⟨ds, j1, hf, hl, hr, hi⟩ := fold_spec n m m 0 0 (index + 1) [] (by omega) (by omega) (by simpa using h)
+  have : decode_comb index n m = ds := by
+    have hrange : m + 1 - 1 = m := by omega
+    simp only [decode_comb, hrange]
+    simp only [Nat.zero_add] at hf
+    rw [hf]
+    simp
+  rw [this]
+  exact ⟨hl, hi, by omega⟩
+
+theorem decode_comb_injective (i j n m : Nat) (hi : i < Nat.choose n m) (hj : j < Nat.choose n m)
+    (h : decode_comb i n m = decode_comb j n m) : i = j := by
+  have a := (decode_comb_spec i n m hi).2.2
+  have b := (decode_comb_spec j n m hj).2.2
+  rw [h] at a
+  omega
+-- END _index_to_edge_comb
